@@ -55,12 +55,39 @@ class Recorder:
             return self.conn_no
 
 
-def install_proxy(rec):
+def install_proxy(rec, contend=None):
     """Proxy around sqlite3.connect: logs every statement / commit; everything else is passed through, so
     that equivalent ways of using the sqlite3 API (conn.execute, `with conn:`, executemany) stay observable."""
 
-    def logged_execute(no, fn, sql, a, many=False):
+    def maybe_contend(db_path):
+        """Deterministic lock contention: before every `every`-th single-row upsert another connection takes the
+        exclusive lock and keeps it for `hold` consecutive attempts (each attempt of the writer then fails with
+        'database is locked' after the shortened busy timeout); the next attempt finds the lock released."""
+        if contend is None or contend.get("in_sync_all"):
+            return
+        with rec.lock:
+            if contend.get("holder") is None:
+                contend["count"] = contend.get("count", 0) + 1
+                if contend["count"] % contend["every"] == 0:
+                    h = _real_connect(db_path, timeout=0.5, isolation_level=None)
+                    try:
+                        h.execute("BEGIN EXCLUSIVE")
+                        contend["holder"], contend["left"] = h, contend["hold"]
+                    except sqlite3.Error:
+                        h.close()
+            elif contend["left"] <= 0:
+                try:
+                    contend["holder"].execute("COMMIT")
+                finally:
+                    contend["holder"].close()
+                    contend["holder"] = None
+            else:
+                contend["left"] -= 1
+
+    def logged_execute(no, fn, sql, a, many=False, db_path=None):
         if sql.lstrip().upper().startswith("INSERT INTO INDIVIDUALS"):
+            if not many and db_path:
+                maybe_contend(db_path)
             rows = list(a[0]) if many else [a[0]]
             tags = ["upsert %d %d %d" % (no, r[0], blob_hash(r[1])) for r in rows]
             a = (rows,) if many else a
@@ -87,11 +114,11 @@ def install_proxy(rec):
         return r
 
     class Cur:
-        def __init__(s, c, no):
-            s.c, s.no = c, no
+        def __init__(s, c, no, path=None):
+            s.c, s.no, s.path = c, no, path
 
         def execute(s, sql, *a):
-            logged_execute(s.no, s.c.execute, sql, a)
+            logged_execute(s.no, s.c.execute, sql, a, db_path=s.path)
             return s
 
         def executemany(s, sql, *a):
@@ -107,10 +134,13 @@ def install_proxy(rec):
     class Conn:
         def __init__(s, *a, **k):
             s.no = rec.new_conn()
+            s.path = a[0] if a else k.get("database")
+            if contend is not None:
+                k["timeout"] = 0.02
             s.c = _real_connect(*a, **k)
 
         def cursor(s, *a, **k):
-            return Cur(s.c.cursor(*a, **k), s.no)
+            return Cur(s.c.cursor(*a, **k), s.no, s.path)
 
         def execute(s, sql, *a):
             return s.cursor().execute(sql, *a)
@@ -155,7 +185,8 @@ def child_main(db, log, crash_at, scenario, seed, scratch):
         os.dup2(devnull, 1)
         os.dup2(devnull, 2)
         rec = Recorder(log, crash_at)
-        install_proxy(rec)
+        contend = {"every": 4, "hold": 6} if len(scenario) > 4 else None
+        install_proxy(rec, contend)
         random.seed(seed)
         import numpy as np
         np.random.seed(seed)
@@ -177,17 +208,27 @@ def child_main(db, log, crash_at, scenario, seed, scratch):
         rec.tick("STORE-CREATED")
         orig_sync, orig_all = p.data_store.sync_individual, p.data_store.sync_all
 
-        def sync_individual(ind):
-            r = orig_sync(ind)
+        def sync_individual(ind, *a, **k):
+            r = orig_sync(ind, *a, **k)
             rec.tick("sync-return %d" % ind.id)
             return r
 
         def sync_all():
+            if contend is not None:
+                contend["in_sync_all"] = True
+                if contend.get("holder") is not None:     # the competing connection finishes before the final flush
+                    try:
+                        contend["holder"].execute("COMMIT")
+                    finally:
+                        contend["holder"].close()
+                        contend["holder"] = None
             r = orig_all()
+            if contend is not None:
+                contend["in_sync_all"] = False
             rec.tick("sync-all-return %s" % "+".join(str(i.id) for i in p.individuals))
             return r
         p.data_store.sync_individual, p.data_store.sync_all = sync_individual, sync_all
-        kind, n, g, workers = scenario
+        kind, n, g, workers = scenario[:4]
         if kind == "nsga2":
             from artap.algorithm_NSGAII import NSGAII
             a = NSGAII(p)
@@ -350,8 +391,8 @@ def check_point(ctx, evs, rb, lines, pending):
     return None
 
 
-SCEN_QUICK = [("nsga2", 3, 2, 1), ("nsga2", 3, 2, 2), ("epsmoea", 3, 2, 1), ("sweep", 3, 2, 2)]
-SCEN_THOROUGH = [("nsga2", 4, 3, 1), ("nsga2", 4, 3, 3), ("epsmoea", 3, 2, 2), ("epsmoea", 4, 3, 1), ("sweep", 3, 2, 1), ("sweep", 5, 2, 3)]
+SCEN_QUICK = [("nsga2", 3, 2, 1), ("nsga2", 3, 2, 2), ("epsmoea", 3, 2, 1), ("sweep", 3, 2, 2), ("nsga2", 3, 2, 1, "contend")]
+SCEN_THOROUGH = [("nsga2", 4, 3, 1), ("nsga2", 4, 3, 3), ("epsmoea", 3, 2, 2), ("epsmoea", 4, 3, 1), ("sweep", 3, 2, 1), ("sweep", 5, 2, 3), ("nsga2", 3, 2, 2, "contend"), ("epsmoea", 3, 2, 1, "contend")]
 
 
 def run(ctx):
@@ -472,7 +513,7 @@ def run(ctx):
                     pid = spawn(db, db + ".log", -1, scen, seed, scratch)
                     running.append((pid, db, mode, arg, time.time(), time.time() + 0.02 + arg * ref_duration[0]))
             reap(True)
-            ctx.count("scenario_%s_%dx%d_w%d_events" % scen, total)
+            ctx.count("scenario_%s_%dx%d_w%d_events" % tuple(scen[:4]) + ("_contended" if len(scen) > 4 else ""), total)
     finally:
         shutil.rmtree(scratch, ignore_errors=True)
     if ctx.failures:
